@@ -54,7 +54,10 @@ type c12Case struct {
 	// ErrorHandler: 0 = nil; 1 = custom handler that writes its own 418 and returns nil;
 	// 2 = custom handler that returns its own 409 error
 	ErrorHandler int `json:"error_handler,omitempty"`
-	// Ctor: 0 = CSRFWithConfig(cfg); 1 = CSRF() (every config field of the case must be zero)
+	// Ctor: 0 = CSRFWithConfig(cfg); 1 = CSRF() (every config field of the case must be zero); 2 = the application
+	// calls CSRF() once with the stock defaults (an earlier mount), then writes the case's configuration into the
+	// package-level middleware.DefaultCSRFConfig (non-zero fields over the stock default) and calls CSRF() AGAIN:
+	// the second call must use the defaults as they are then (the stock default is restored afterwards)
 	Ctor           int    `json:"ctor,omitempty"`
 	CookiePath     string `json:"cookie_path,omitempty"`
 	CookieDomain   string `json:"cookie_domain,omitempty"`
@@ -175,7 +178,7 @@ func (c *c12Case) stack() []int {
 func (c *c12Case) valid() bool {
 	if c.TokenLength < 0 || c.TokenLength > 255 || c.ErrorHandler < 0 || c.ErrorHandler > 2 || c.Extra < 0 || c.Extra > 4 ||
 		c.Len2 < 0 || c.Len2 > 255 || c.CookieMaxAge < 0 || c.CookieMaxAge > 1<<30 || c.CookieSameSite < 0 || c.CookieSameSite > 4 ||
-		c.Ctor < 0 || c.Ctor > 1 || len(c.Route) > 40 || c.Mount < 0 || c.Mount > 4 || c.Inst2 < 0 || c.Inst2 > 4 || c.Conc < 0 || c.Conc > 64 || c.ConcN < 0 || c.ConcN > 5000 {
+		c.Ctor < 0 || c.Ctor > 2 || len(c.Route) > 40 || c.Mount < 0 || c.Mount > 4 || c.Inst2 < 0 || c.Inst2 > 4 || c.Conc < 0 || c.Conc > 64 || c.ConcN < 0 || c.ConcN > 5000 {
 		return false
 	}
 	if c.Ctor == 1 && (c.TokenLength != 0 || c.TokenLookup != "" || c.CookieName != "" || c.ContextKey != "" || c.ErrorHandler != 0 ||
@@ -594,6 +597,10 @@ func c12Run(ci any) Result {
 					return s
 				}
 			}
+			if in.ctor == 2 {
+				env.mws = append(env.mws, c12ViaDefaults(cfg))
+				continue
+			}
 			env.mws = append(env.mws, middleware.CSRFWithConfig(cfg))
 		}
 		switch c.Mount {
@@ -945,6 +952,9 @@ func c12Run(ci any) Result {
 	if c.Ctor == 1 {
 		tagset["ctor-CSRF()"] = true
 	}
+	if c.Ctor == 2 {
+		tagset["ctor-CSRF()-again-after-DefaultCSRFConfig-changed"] = true
+	}
 	if c.Skipper {
 		tagset["skipper-configured"] = true
 	}
@@ -992,6 +1002,40 @@ func c12Run(ci any) Result {
 
 const c12Preset = "preset-ctx-value"
 
+// c12ViaDefaults: the configuration reaches the middleware through the package-level default: CSRF() is
+// called once with the stock DefaultCSRFConfig, then the non-zero fields of cfg are written over the default
+// and CSRF() is called again; the stock default is restored before returning.  (C12 cases run serially.)
+func c12ViaDefaults(cfg middleware.CSRFConfig) echo.MiddlewareFunc {
+	stock := middleware.DefaultCSRFConfig
+	defer func() { middleware.DefaultCSRFConfig = stock }()
+	_ = middleware.CSRF()
+	d := stock
+	if cfg.Skipper != nil {
+		d.Skipper = cfg.Skipper
+	}
+	if cfg.TokenLength != 0 {
+		d.TokenLength = cfg.TokenLength
+	}
+	if cfg.TokenLookup != "" {
+		d.TokenLookup = cfg.TokenLookup
+	}
+	if cfg.ContextKey != "" {
+		d.ContextKey = cfg.ContextKey
+	}
+	if cfg.CookieName != "" {
+		d.CookieName = cfg.CookieName
+	}
+	if cfg.CookieMaxAge != 0 {
+		d.CookieMaxAge = cfg.CookieMaxAge
+	}
+	if cfg.CookieSameSite != 0 {
+		d.CookieSameSite = cfg.CookieSameSite
+	}
+	d.CookiePath, d.CookieDomain, d.CookieSecure, d.CookieHTTPOnly, d.ErrorHandler = cfg.CookiePath, cfg.CookieDomain, cfg.CookieSecure, cfg.CookieHTTPOnly, cfg.ErrorHandler
+	middleware.DefaultCSRFConfig = d
+	return middleware.CSRF()
+}
+
 // c12RunConc: overlapping requests through ONE stack.  Every goroutine has a CSRF cookie of its own (or
 // none, then its tokens come from the real crypto/rand) and sends safe and unsafe requests that satisfy
 // every instance; whatever the schedule, each response must carry the token of ITS request in Set-Cookie,
@@ -1025,6 +1069,8 @@ func c12RunConc(c *c12Case) Result {
 				mws = append(mws, middleware.RequestID())
 			case insts[k].ctor == 1:
 				mws = append(mws, middleware.CSRF())
+			case insts[k].ctor == 2:
+				mws = append(mws, c12ViaDefaults(insts[k].raw))
 			default:
 				mws = append(mws, middleware.CSRFWithConfig(insts[k].raw))
 			}
@@ -1221,7 +1267,12 @@ var c12Lookups = []string{"", "header:X-CSRF-Token", "header:x-csrf-token", "for
 	"header:Authorization:Bearer ", "header:X-Tok:tok-", "form:csrf,form:csrf2,header:X-CSRF-Token",
 	"query:csrf,query:t",
 	// a prefix-cut header source as the LAST source (its "invalid value" error is then the one that is translated)
-	"form:csrf,header:X-Tok:tok-", "query:csrf,header:Authorization:Bearer ", "header:X-CSRF-Token,header:X-Tok:tok-"}
+	"form:csrf,header:X-Tok:tok-", "query:csrf,header:Authorization:Bearer ", "header:X-CSRF-Token,header:X-Tok:tok-",
+	// a prefix-cut header source BEFORE header sources without one (the cut-prefix belongs to its own source only)
+	"header:X-Tok:tok-,header:X-CSRF-Token", "header:Authorization:Bearer ,query:csrf,header:X-CSRF-Token",
+	"header:X-Legacy-Token:csrf ,header:X-CSRF-Token", "header:X-Tok:tok-,header:X-Other:pre-,header:X-CSRF-Token,header:X-Last",
+	// the same header named twice, once whole and once behind a cut-prefix, in both orders
+	"header:X-Tok,header:X-Tok:tok-", "header:X-Tok:tok-,header:X-Tok"}
 
 // sources CreateExtractors knows besides header/form/query: path parameters and cookies
 var c12ParamCookieLookups = []string{"param:tok", "param:id,header:X-CSRF-Token", "header:X-CSRF-Token,param:tok", "query:csrf,param:t",
@@ -1269,6 +1320,35 @@ func c12SwapCase(s string) string {
 }
 
 func c12NearMiss(r *rand.Rand, t string) string {
+	if r.Intn(4) == 0 {
+		// the right token as an ELEMENT of a longer value: lists, quotes, parameters
+		switch r.Intn(12) {
+		case 0:
+			return "zzz, " + t
+		case 1:
+			return t + ","
+		case 2:
+			return ", " + t
+		case 3:
+			return t + ",zzz"
+		case 4:
+			return t + ", " + t
+		case 5:
+			return t + "; q=1"
+		case 6:
+			return "\"" + t + "\""
+		case 7:
+			return "a " + t
+		case 8:
+			return t + "\t"
+		case 9:
+			return "," + t + ","
+		case 10:
+			return "'" + t + "'"
+		default:
+			return t + ";" + t
+		}
+	}
 	switch r.Intn(13) {
 	case 10:
 		// same length, same multiset of bytes: two distinct bytes exchanged (defeats comparisons that
@@ -1614,6 +1694,14 @@ func c12GenReq(r *rand.Rand, c *c12Case) c12Req {
 			rq.Method = []string{"DELETE", "post", "CUSTOM", "Put"}[r.Intn(4)]
 			rq.Form = append(rq.Form, [2]string{"csrf", tok}, [2]string{"_csrf", tok}, [2]string{"csrf2", tok})
 		default: // prefix configured but absent / wrong
+			// the cut-prefix of ANOTHER header source in front of the token at a header source without one
+			for _, p := range locs {
+				for _, u := range locs {
+					if p.kind == "header" && p.pfx != "" && u.kind == "header" && u.pfx == "" {
+						rq.Headers = append(rq.Headers, [2]string{u.name, p.pfx + tok})
+					}
+				}
+			}
 			if loc.kind == "header" && loc.pfx != "" {
 				wrong := "X" + loc.pfx[1:] // same length, different first byte
 				rq.Headers = append(rq.Headers, [2]string{loc.name, tok}, [2]string{loc.name, "Basic " + tok}, [2]string{loc.name, loc.pfx}, [2]string{loc.name, wrong + tok})
@@ -1701,6 +1789,9 @@ func c12Gen(r *rand.Rand, tier string) []any {
 				c.CookieSameSite = r.Intn(5)
 			}
 			c.Skipper = r.Intn(7) == 0
+			if r.Intn(10) == 0 {
+				c.Ctor = 2
+			}
 		}
 		if r.Intn(4) == 0 {
 			c.Extra = 1 + r.Intn(4)
@@ -1908,6 +1999,20 @@ func c12Mutate(r *rand.Rand, ci any) []any {
 				n.Headers[k][1] += "x"
 			}
 		})
+		for _, p := range c12Locs(c.TokenLookup) {
+			for _, u := range c12Locs(c.TokenLookup) {
+				if p.kind == "header" && p.pfx != "" && u.kind == "header" && u.pfx == "" {
+					p, u := p, u
+					// another source's cut-prefix in front of the token, at a header source without one
+					variant(func(n *c12Req) {
+						setCookie(n)
+						n.Method = "POST"
+						n.Query, n.Form = nil, nil
+						n.Headers = [][2]string{{u.name, p.pfx + "MutatedCookieTokenABCDEFGHIJKLMN"}}
+					})
+				}
+			}
+		}
 		for _, loc := range c12Locs(c.TokenLookup) {
 			loc := loc
 			variant(func(n *c12Req) {
@@ -1998,6 +2103,11 @@ func c12Shrink(ci any) []any {
 		d.PreSet = false
 		out = append(out, &d)
 	}
+	if c.Ctor == 2 {
+		d := *c
+		d.Ctor = 0
+		out = append(out, &d)
+	}
 	if c.AppCookies {
 		d := *c
 		d.AppCookies = false
@@ -2039,7 +2149,7 @@ func c12Shrink(ci any) []any {
 func init() {
 	register(&Prop{
 		ID:             "C12",
-		Rule:           "one CSRF middleware per case, built with CSRFWithConfig (TokenLength 0/1..255 with the uint8 boundaries 203..208, 254, 255; 15 header/form/query TokenLookup shapes with 1-3 sources, prefix cut (also as the LAST source), non-canonical header names; 12% param:/cookie: sources on routes with 1-3 or 22 path parameters; 4% ignored/failing sources (no known source: compared with the model only); a third with a custom ErrorHandler that writes its own 418 and returns nil, or returns its own 409 error; a third with cookie options Path/Domain/MaxAge/Secure/HttpOnly/SameSite 0..4; a seventh with a Skipper on the X-Skip header) or with the convenience constructor CSRF() (8%); a quarter of the cases stack other consumers of the random source on the same Echo: RequestID() after or before CSRF, a second CSRF instance (own cookie, context key, lookup, token length), or CSRF + RequestID() + second CSRF (the second instance with its own ContextKey, or — own cookie _csrf_admin / lookup form:admin_csrf, or cookie _csrf2 — on the DEFAULT ContextKey shared with the first instance: the innermost instance owns the key, every instance still validates and publishes its own cookie); a twelfth of the cases have an earlier middleware that presets a value under the ContextKey; registration with e.Use, on the route, on a group, first on the Echo and the rest on a group, or applied once by hand (mw(handler): the only way state of the func(next) part is shared between requests); x 1-4 requests: 27 method spellings (standard, lower/mixed case, padded, custom, empty) x cookie present/empty/absent/look-alike name/duplicated x client token exact (alone, among 3/20/21/25 values, beside wrong tokens at other sources), near miss (prefix, suffix, case change, padding, NUL, bit flip, empty), absent, at a non-configured, look-alike-named or unparsed location, or guessed fresh token; random source = seeded byte stream per request delivered one byte per Read (uniform, mostly rejected bytes, boundary bytes 200..215, whole first buffer rejected, too short for the first or for a later consumer), shared by all consumers of the request; every token a handler found in its context is kept (the very string) and compared again with its Set-Cookie after all later requests; every 60th case runs on the real crypto/rand (oracle only: length, letters, Set-Cookie = context, no token issued twice); CreateExtractors is also called directly on the configured string; a quarter of the requests are answered by a handler that writes nothing, writes through the raw Response.Writer or Unwrap(), uses NoContent, or returns an HTTPError (Set-Cookie is read off what reached the wire); second-instance cookie names that extend the first one (+_site) or are a proper prefix of it; a sixth of the cases have application cookies set before the stack (session, <csrf cookie>_state) and by the handler (after): the sorted names of all Set-Cookie lines on the wire are compared with the model; cookies holding %xx / + escapes with the DECODED value presented as client token; plus 12 (thorough: 150) concurrency cases: 8-16 goroutines x 150-300 (x3) overlapping requests through one stack, each goroutine with its own cookie (every third without: real crypto/rand), every response must carry ITS request's token in Set-Cookie and context, every request must pass (oracle only, sound on every schedule); non-trivial = an unsafe request that passed, or was rejected although cookie and client tokens were present; distinct = distinct model op lines",
+		Rule:           "one CSRF middleware per case, built with CSRFWithConfig (TokenLength 0/1..255 with the uint8 boundaries 203..208, 254, 255; 15 header/form/query TokenLookup shapes with 1-3 sources, prefix cut (also as the LAST source), non-canonical header names; 12% param:/cookie: sources on routes with 1-3 or 22 path parameters; 4% ignored/failing sources (no known source: compared with the model only); a third with a custom ErrorHandler that writes its own 418 and returns nil, or returns its own 409 error; a third with cookie options Path/Domain/MaxAge/Secure/HttpOnly/SameSite 0..4; a seventh with a Skipper on the X-Skip header) or with the convenience constructor CSRF() (8%); a quarter of the cases stack other consumers of the random source on the same Echo: RequestID() after or before CSRF, a second CSRF instance (own cookie, context key, lookup, token length), or CSRF + RequestID() + second CSRF (the second instance with its own ContextKey, or — own cookie _csrf_admin / lookup form:admin_csrf, or cookie _csrf2 — on the DEFAULT ContextKey shared with the first instance: the innermost instance owns the key, every instance still validates and publishes its own cookie); a twelfth of the cases have an earlier middleware that presets a value under the ContextKey; registration with e.Use, on the route, on a group, first on the Echo and the rest on a group, or applied once by hand (mw(handler): the only way state of the func(next) part is shared between requests); x 1-4 requests: 27 method spellings (standard, lower/mixed case, padded, custom, empty) x cookie present/empty/absent/look-alike name/duplicated x client token exact (alone, among 3/20/21/25 values, beside wrong tokens at other sources), near miss (prefix, suffix, case change, padding, NUL, bit flip, empty), absent, at a non-configured, look-alike-named or unparsed location, or guessed fresh token; random source = seeded byte stream per request delivered one byte per Read (uniform, mostly rejected bytes, boundary bytes 200..215, whole first buffer rejected, too short for the first or for a later consumer), shared by all consumers of the request; every token a handler found in its context is kept (the very string) and compared again with its Set-Cookie after all later requests; every 60th case runs on the real crypto/rand (oracle only: length, letters, Set-Cookie = context, no token issued twice); CreateExtractors is also called directly on the configured string; lookups with a prefix-cut header source before AND after header sources without one (with the other source's cut-prefix + token presented at the source without one); a quarter of the near misses embed the right token as an element of a longer value (lists with comma / semicolon / space / tab, quotes, doubled); a tenth of the configured cases reach the middleware through the package-level default (CSRF() with the stock default, DefaultCSRFConfig changed, CSRF() again; restored afterwards); a quarter of the requests are answered by a handler that writes nothing, writes through the raw Response.Writer or Unwrap(), uses NoContent, or returns an HTTPError (Set-Cookie is read off what reached the wire); second-instance cookie names that extend the first one (+_site) or are a proper prefix of it; a sixth of the cases have application cookies set before the stack (session, <csrf cookie>_state) and by the handler (after): the sorted names of all Set-Cookie lines on the wire are compared with the model; cookies holding %xx / + escapes with the DECODED value presented as client token; plus 12 (thorough: 150) concurrency cases: 8-16 goroutines x 150-300 (x3) overlapping requests through one stack, each goroutine with its own cookie (every third without: real crypto/rand), every response must carry ITS request's token in Set-Cookie and context, every request must pass (oracle only, sound on every schedule); non-trivial = an unsafe request that passed, or was rejected although cookie and client tokens were present; distinct = distinct model op lines",
 		New:            func() any { return &c12Case{} },
 		Gen:            c12Gen,
 		Run:            c12Run,
